@@ -26,6 +26,7 @@ _real_wait = cf.wait
 _real_TPE = cf_thread.ThreadPoolExecutor
 _real_aio_wait = asyncio.wait
 _real_Lock_type = type(threading.Lock())
+_real_RLock_type = type(threading.RLock())
 
 INSTALLED: Dict[str, Any] = {}
 
@@ -238,7 +239,7 @@ def sim_wait(fs: Any, timeout: Optional[float] = None, return_when: str = cf.ALL
     else:
         pred = lambda: all(f.done() for f in fs)  # noqa: E731
     blocked = bool(fs) and not pred()
-    nids = [getattr(f, "nid", None) for f in fs]
+    nids = sorted((getattr(f, "nid", None) or "") for f in fs)
     i = sim.ev("wait", tok, "conc", nids, return_when, blocked)
     if tok is not None:
         rt.open_waits[tok] = {"kind": "conc", "fs": fs, "rw": return_when, "ev": i,
@@ -250,7 +251,7 @@ def sim_wait(fs: Any, timeout: Optional[float] = None, return_when: str = cf.ALL
     done_ids = [getattr(f, "nid", None) for f in r.done]
     if len(done_ids) >= 2:
         rt.probe("multi_done_one_wait")
-    sim.ev("wait_ret", tok, "conc", sorted(x or "" for x in done_ids), [getattr(f, "nid", None) for f in r.done])
+    sim.ev("wait_ret", tok, "conc", sorted(x or "" for x in done_ids), sorted(x or "" for x in done_ids))
     return r
 
 
@@ -260,8 +261,8 @@ async def sim_aio_wait(fs: Any, *, timeout: Optional[float] = None, return_when:
     rt, sim = RT, RT.sim
     fs = list(fs)
     tok = rt.cur_token()
-    nids = [getattr(f, "nid", None) for f in fs]
-    tracked = tok is not None and any(n is not None for n in nids)
+    nids = sorted((getattr(f, "nid", None) or "") for f in fs)
+    tracked = tok is not None and any(nids)
     if not tracked:
         return await _real_aio_wait(fs, timeout=timeout, return_when=return_when)
     if return_when == asyncio.FIRST_COMPLETED:
@@ -278,7 +279,7 @@ async def sim_aio_wait(fs: Any, *, timeout: Optional[float] = None, return_when:
     done_ids = [getattr(f, "nid", None) for f in done]
     if len(done_ids) >= 2:
         rt.probe("multi_done_one_wait")
-    sim.ev("wait_ret", tok, "async", sorted(x or "" for x in done_ids), done_ids)
+    sim.ev("wait_ret", tok, "async", sorted(x or "" for x in done_ids), sorted(x or "" for x in done_ids))
     return done, pend
 
 
@@ -346,6 +347,34 @@ def _task_factory(loop: Any, coro: Any, **kw: Any) -> Any:
     return t
 
 
+class SimAioFuture(asyncio.Future):  # type: ignore[type-arg]
+    """asyncio futures created through the loop (wrap_future, run_in_executor) get a deterministic hash as well."""
+
+    def __new__(cls, *a: Any, **k: Any) -> "SimAioFuture":
+        o = super().__new__(cls, *a, **k)
+        rt = RT
+        o._simh = hash((rt.salt if rt is not None else 0, 1, next(rt.tseq))) if rt is not None else id(o)
+        o.nid = None
+        return o
+
+    def __hash__(self) -> int:
+        return self._simh
+
+
+_real_wrap_future = asyncio.futures.wrap_future
+
+
+def sim_wrap_future(future: Any, *, loop: Any = None) -> Any:
+    new = _real_wrap_future(future, loop=loop)
+    nid = getattr(future, "nid", None)
+    if nid is not None:
+        try:
+            new.nid = nid   # keeps a pool future observable when the scheduler waits for it through asyncio
+        except AttributeError:
+            pass
+    return new
+
+
 class SimLoop(asyncio.SelectorEventLoop):
     def __init__(self) -> None:
         super().__init__(selectors.SelectSelector())
@@ -365,6 +394,11 @@ class SimLoop(asyncio.SelectorEventLoop):
             return RT.sim.now
         return super().time()
 
+    def create_future(self) -> Any:
+        if RT is not None:
+            return SimAioFuture(loop=self)
+        return super().create_future()
+
 
 class SimPolicy(asyncio.DefaultEventLoopPolicy):
     def new_event_loop(self) -> asyncio.AbstractEventLoop:
@@ -373,9 +407,13 @@ class SimPolicy(asyncio.DefaultEventLoopPolicy):
 
 # ------------------------------------------------------------------------------- lock seam
 class SimLock:
-    def __init__(self) -> None:
+    """Replaces module-level threading.Lock / RLock objects of tawazi (re-entrant iff it replaces an RLock)."""
+
+    def __init__(self, reentrant: bool = False) -> None:
         self._owner: Any = None
-        self._real = threading.Lock()
+        self._count = 0
+        self._reentrant = reentrant
+        self._real = threading.RLock() if reentrant else threading.Lock()
 
     def locked(self) -> bool:
         return self._owner is not None
@@ -383,6 +421,10 @@ class SimLock:
     def acquire(self, blocking: bool = True, timeout: float = -1) -> bool:
         if _sim_active():
             rt, sim = RT, RT.sim
+            me = sim.me()
+            if self._reentrant and self._owner is me:
+                self._count += 1
+                return True
             rt.lock_stats["acquire"] += 1
             if self._owner is not None:
                 rt.lock_stats["contended"] += 1
@@ -390,23 +432,32 @@ class SimLock:
                 if not blocking:
                     return False
             sim.yield_("lock-acquire", pred=lambda: self._owner is None, info=("lock",))
-            self._owner = sim.me() or True
-            sim.ev("lock_acquired", sim.me().name if sim.me() else None)
+            self._owner = me or True
+            self._count = 1
+            sim.ev("lock_acquired", me.name if me else None)
             return True
         ok = self._real.acquire(blocking, timeout)
         if ok:
             self._owner = True
+            self._count += 1
         return ok
 
     def release(self) -> None:
         if _sim_active():
+            self._count -= 1
+            if self._reentrant and self._count > 0:
+                return
             self._owner = None
             RT.sim.ev("lock_released", RT.sim.me().name)
             RT.sim.yield_("lock-release", info=("lock",))
             return
-        self._owner = None
-        if self._real.locked():
+        self._count = max(0, self._count - 1)
+        if self._count == 0:
+            self._owner = None
+        try:
             self._real.release()
+        except RuntimeError:
+            pass
 
     def __enter__(self) -> bool:
         return self.acquire()
@@ -428,6 +479,9 @@ def install_pre() -> None:
     cf._base.wait = sim_wait  # type: ignore[attr-defined]
     asyncio.wait = sim_aio_wait  # type: ignore[assignment]
     asyncio.tasks.wait = sim_aio_wait  # type: ignore[assignment]
+    asyncio.futures.wrap_future = sim_wrap_future  # type: ignore[assignment]
+    asyncio.wrap_future = sim_wrap_future  # type: ignore[assignment]
+    asyncio.base_events.futures.wrap_future = sim_wrap_future  # type: ignore[attr-defined]
     asyncio.set_event_loop_policy(SimPolicy())
     logging.getLogger("concurrent.futures").setLevel(logging.CRITICAL)
     logging.getLogger("asyncio").setLevel(logging.CRITICAL)
@@ -458,8 +512,8 @@ def install_post() -> Dict[str, Any]:
     repl: Dict[int, SimLock] = {}
     for n, m in mods:
         for k, v in list(vars(m).items()):
-            if isinstance(v, _real_Lock_type):
-                sl = repl.setdefault(id(v), SimLock())
+            if isinstance(v, (_real_Lock_type, _real_RLock_type)):
+                sl = repl.setdefault(id(v), SimLock(reentrant=isinstance(v, _real_RLock_type)))
                 setattr(m, k, sl)
                 report["locks"].append(f"{n}.{k}")
     # node entry / exit
